@@ -181,7 +181,7 @@ func (s Social) DefaultCallback(c context.Context, activity pub.Activity) error 
 	if inj {
 		return ErrInjected
 	}
-	return nil
+	return s.W.callbackErr()
 }
 
 // Fed implements pub.FederatingProtocol.
@@ -238,7 +238,7 @@ func (f Fed) DefaultCallback(c context.Context, activity pub.Activity) error {
 	if inj {
 		return ErrInjected
 	}
-	return nil
+	return f.W.callbackErr()
 }
 func (f Fed) MaxInboxForwardingRecursionDepth(c context.Context) int {
 	f.W.ev(c, "app.MaxInboxForwardingRecursionDepth", false)
@@ -311,6 +311,20 @@ func (w *World) cb(c context.Context, kind, id string) error {
 	_, inj := w.ev(c, kind, true, id)
 	if inj {
 		return ErrInjected
+	}
+	// an application callback may itself find the object / target missing
+	// (say, after its own validation): the documented sentinel errors
+	return w.callbackErr()
+}
+
+// callbackErr is what an application callback returns when the scenario says
+// it finds the object / target missing.
+func (w *World) callbackErr() error {
+	switch w.Cfg.CallbackErr {
+	case "object":
+		return pub.ErrObjectRequired
+	case "target":
+		return pub.ErrTargetRequired
 	}
 	return nil
 }
